@@ -4,10 +4,13 @@ import (
 	"fmt"
 
 	"bxhlint/core"
+	"bxhlint/rules"
 )
 
 func dumpModel(p *core.Prog, what string) {
 	switch what {
+	case "c01":
+		rules.C01Dump(&rules.Ctx{P: p, R: core.NewReport("C01", "quick", "/tmp", 0)})
 	case "dbg":
 		dbg(p)
 		dbg2(p)
